@@ -488,6 +488,18 @@ def run(chk):
             chk.violation('framing:negative-threshold', 'compression enabled with threshold -1 on a live connection (protocol %d, cipher %s): %s'
                           % (version, 'on' if j % 2 else 'off', why_), {'version': version})
 
+    # ---- no compression is in force on a fresh socket: a status query after a whole compressed session on the same
+    #      Connection object is framed plainly in both directions
+    from . import c09
+    for j in range(3 if quick else 20):
+        v = [757, 340, 47][j % 3]
+        why_ = c09.second_query_after_failure(None, v, 'play_comp', chk.seed * 389 + j)
+        chk.traces += 1
+        chk.case(('status-after-compressed-session', j))
+        if why_:
+            chk.violation('framing:status-after-compressed-session', 'a compressed session, then status() on the same Connection '
+                          '(protocol %d): %s' % (v, why_), {'version': v})
+
     # ---- write direction
     n_w = 120 if quick else 1500
     wrote = 0
